@@ -291,6 +291,51 @@ example : Pre (fun a => a ≠ 0)
     subst hkv
     exact PA.addr (by decide)
 
+/-- the addresses a context holds -/
+def Holds (c : Ctx) (a : Nat) : Prop := ∃ kv ∈ c, kv.2 = addr a
+
+/-- no immediate dict among the values of a context (user values are boxed) -/
+def NoImmDict (c : Ctx) : Prop := ∀ kv ∈ c, isDict kv.2 = false
+
+theorem allVals_of_holds {A : Nat → Prop} {c : Ctx} (hd : NoImmDict c) (h : ∀ a, Holds c a → A a) : AllVals (PA A) c :=
+  fun kv hkv => ⟨fun a e => h a ⟨kv, hkv, e⟩, hd kv hkv⟩
+
+/-- **What an instance can reach is all it can touch** (corollary of the frame theorem): let instance `n`
+    run any `body` from a state `s`.  Every heap cell that `n` does not hold in its context or `arguments`,
+    that no global variable holds, and that already exists, has the same content afterwards — whatever `n`
+    and the flows it calls execute.  With `n` := a callee at its entry: a callee can change only the objects it
+    was passed, the global ones, and the ones it creates itself; everything else of the caller and of every
+    other instance is out of its reach. -/
+theorem reach_is_all_it_can_touch (flows : List (String × HFlowDef)) (fuel : Nat) (s : HSt) (n : Nat) (body : List HStmt)
+    (f : Inst) (hf : findInst n s.st.insts = some f) (hfresh : Fresh s.st) (hlt : n < s.st.next)
+    (hdc : NoImmDict f.context) (hda : NoImmDict f.arguments) (hdg : NoImmDict s.st.globals)
+    (a : Nat) (ha : a < s.heap.length)
+    (hc : ¬ Holds f.context a) (harg : ¬ Holds f.arguments a) (hg : ¬ Holds s.st.globals a) :
+    (hexec flows fuel s n body).1.heap[a]? = s.heap[a]? := by
+  let A : Nat → Prop := fun x => Holds f.context x ∨ Holds f.arguments x ∨ Holds s.st.globals x ∨ s.heap.length ≤ x
+  have hpre : Pre A s n :=
+    ⟨hfresh, hlt, fun x hx => Or.inr (Or.inr (Or.inr hx)),
+     ⟨f, hf, allVals_of_holds hdc (fun x hx => Or.inl hx), allVals_of_holds hda (fun x hx => Or.inr (Or.inl hx))⟩,
+     allVals_of_holds hdg (fun x hx => Or.inr (Or.inr (Or.inl hx)))⟩
+  refine (hexec_frame flows fuel s n body hpre).heap a ?_
+  rintro (h | h | h | h)
+  · exact hc h
+  · exact harg h
+  · exact hg h
+  · omega
+
+/-- non-vacuity: instance 1 holds cell 0 only; cell 1 (instance 0's list) is out of its reach -/
+example : ¬ Holds [(Key.name "v", addr 0)] 1 ∧ NoImmDict [(Key.name "v", addr 0)] := by
+  constructor
+  · rintro ⟨kv, hkv, e⟩
+    simp only [List.mem_singleton] at hkv
+    subst hkv
+    simp [addr] at e
+  · intro kv hkv
+    simp only [List.mem_singleton] at hkv
+    subst hkv
+    rfl
+
 /-! ### passed containers: exact characterisation of the sharing the code has (open finding) -/
 
 /-- a bare variable evaluates to the object it refers to (no copy, heap untouched) — unless it holds a
